@@ -71,6 +71,7 @@ func (c *conn) receiveClose(msg pmpx.Message) status.Status {
 	m := msg.ChannelClose()
 	id := m.Id()
 
+	vtr("rl.del", id, 0, 0)
 	ch, ok := c.channels.Delete(id)
 	if !ok {
 		return status.OK
@@ -84,6 +85,7 @@ func (c *conn) receiveData(msg pmpx.Message) status.Status {
 	m := msg.ChannelData()
 	id := m.Id()
 
+	vtr("rl.get", id, 0, 0)
 	ch, ok := c.channels.Get(id)
 	if !ok {
 		return status.OK
@@ -95,6 +97,7 @@ func (c *conn) receiveWindow(msg pmpx.Message) status.Status {
 	m := msg.ChannelWindow()
 	id := m.Id()
 
+	vtr("rl.get", id, 0, 0)
 	ch, ok := c.channels.Get(id)
 	if !ok {
 		return status.OK
